@@ -181,13 +181,13 @@ structure Inv (reg : Registry) (n : Nat) (H0 : Heap) (st : AState) : Prop where
   n3 : 3 ≤ n
 
 /-- what a complete visit leaves in place -/
-structure Frame (st st' : AState) : Prop where
+structure Restores (st st' : AState) : Prop where
   stack : st'.stack = st.stack
   saved : st'.saved = st.saved
   heap : st.heap.length ≤ st'.heap.length
 
-theorem Frame.refl (st : AState) : Frame st st := ⟨rfl, rfl, Nat.le_refl _⟩
-theorem Frame.trans {a b c : AState} (h1 : Frame a b) (h2 : Frame b c) : Frame a c :=
+theorem Restores.refl (st : AState) : Restores st st := ⟨rfl, rfl, Nat.le_refl _⟩
+theorem Restores.trans {a b c : AState} (h1 : Restores a b) (h2 : Restores b c) : Restores a c :=
   ⟨h2.stack.trans h1.stack, h2.saved.trans h1.saved, Nat.le_trans h1.heap h2.heap⟩
 
 theorem StackRef.top_mem {s : StackRef} (h : s.ids ≠ []) : s.top ∈ s.ids := by
@@ -228,7 +228,7 @@ theorem Inv.emit {reg n H0} {st : AState} (h : Inv reg n H0 st) {es : List Effec
   · exact hes e he
 
 theorem inv_checkLoad {reg n H0} {st : AState} (h : Inv reg n H0 st) (name : Str) (ids : List Nat) (line : Nat) :
-    Inv reg n H0 (checkLoad reg st name ids line) ∧ Frame st (checkLoad reg st name ids line) := by
+    Inv reg n H0 (checkLoad reg st name ids line) ∧ Restores st (checkLoad reg st name ids line) := by
   have h1 : Inv reg n H0 (st.emit (symbolNeedsImport reg st.heap ids name).2) :=
     h.emit (fun e he => (symbolNeedsImport_effects reg st.heap ids name e he).ok n)
   unfold checkLoad
@@ -269,13 +269,13 @@ theorem inv_update_top {reg n H0} {st : AState} (h : Inv reg n H0 st) (i : Nat) 
   · exact h.n3
 
 theorem inv_storeTop {reg n H0} {st : AState} (h : Inv reg n H0 st) (name : Str) :
-    Inv reg n H0 (storeTop st name) ∧ Frame st (storeTop st name) := by
+    Inv reg n H0 (storeTop st name) ∧ Restores st (storeTop st name) := by
   refine ⟨?_, ⟨rfl, rfl, by simp [storeTop, Heap.length_update]⟩⟩
   unfold storeTop
   exact inv_update_top h _ (.inr h.top_ge) _ (fun sc hsc => by simpa [Scope.set] using assocSet_values hsc) _ (.inr h.top_ge)
 
 theorem inv_deferLoad {reg n H0} {st : AState} (h : Inv reg n H0 st) (name : Str) :
-    Inv reg n H0 (deferLoad reg st name) ∧ Frame st (deferLoad reg st name) := by
+    Inv reg n H0 (deferLoad reg st name) ∧ Restores st (deferLoad reg st name) := by
   have h1 : Inv reg n H0 (st.emit (symbolNeedsImport reg st.heap st.stack.ids name).2) :=
     h.emit (fun e he => (symbolNeedsImport_effects reg st.heap st.stack.ids name e he).ok n)
   unfold deferLoad
@@ -315,7 +315,7 @@ theorem inv_deferLoad {reg n H0} {st : AState} (h : Inv reg n H0 st) (name : Str
 /-- the stack one level up (`stack[:-1]`) still ends in a private scope -/
 def UpOK (n : Nat) (st : AState) : Prop := n ≤ st.stack.up.top ∧ ∀ i ∈ st.stack.up.ids, i < st.heap.length
 
-theorem UpOK.frame {n : Nat} {st st' : AState} (h : UpOK n st) (f : Frame st st') : UpOK n st' := by
+theorem UpOK.frame {n : Nat} {st st' : AState} (h : UpOK n st) (f : Restores st st') : UpOK n st' := by
   unfold UpOK at *
   rw [f.stack]
   exact ⟨h.1, fun i hi => Nat.lt_of_lt_of_le (h.2 i hi) f.heap⟩
@@ -324,11 +324,11 @@ theorem UpOK.frame {n : Nat} {st st' : AState} (h : UpOK n st) (f : Frame st st'
 
 /-- running `ops` keeps the invariant and restores the scope stack -/
 def HT (reg : Registry) (n : Nat) (H0 : Heap) (ops : List Op) : Prop :=
-  ∀ st, Inv reg n H0 st → Inv reg n H0 (runOps reg st ops) ∧ Frame st (runOps reg st ops)
+  ∀ st, Inv reg n H0 st → Inv reg n H0 (runOps reg st ops) ∧ Restores st (runOps reg st ops)
 
 /-- same, for sequences that may contain an `_UpScopeCtx` at their own level -/
 def HTU (reg : Registry) (n : Nat) (H0 : Heap) (ops : List Op) : Prop :=
-  ∀ st, Inv reg n H0 st → UpOK n st → Inv reg n H0 (runOps reg st ops) ∧ Frame st (runOps reg st ops)
+  ∀ st, Inv reg n H0 st → UpOK n st → Inv reg n H0 (runOps reg st ops) ∧ Restores st (runOps reg st ops)
 
 theorem runOps_append (reg : Registry) (st : AState) (a b : List Op) :
     runOps reg st (a ++ b) = runOps reg (runOps reg st a) b := by
@@ -341,7 +341,7 @@ theorem runOps_nil (reg : Registry) (st : AState) : runOps reg st [] = st := rfl
 
 variable {reg : Registry} {n : Nat} {H0 : Heap}
 
-theorem HT.nil : HT reg n H0 [] := fun st h => ⟨h, Frame.refl st⟩
+theorem HT.nil : HT reg n H0 [] := fun st h => ⟨h, Restores.refl st⟩
 
 theorem HT.append {a b : List Op} (ha : HT reg n H0 a) (hb : HT reg n H0 b) : HT reg n H0 (a ++ b) := by
   intro st h
@@ -359,21 +359,21 @@ theorem HTU.append {a b : List Op} (ha : HTU reg n H0 a) (hb : HTU reg n H0 b) :
   obtain ⟨h2, f2⟩ := hb _ h1 (hu.frame f1)
   exact ⟨h2, f1.trans f2⟩
 
-theorem HT.single {o : Op} (h : ∀ st, Inv reg n H0 st → Inv reg n H0 (step reg st o) ∧ Frame st (step reg st o)) :
+theorem HT.single {o : Op} (h : ∀ st, Inv reg n H0 st → Inv reg n H0 (step reg st o) ∧ Restores st (step reg st o)) :
     HT reg n H0 [o] := fun st hst => h st hst
 
 theorem HT.cons {o : Op} {b : List Op}
-    (h : ∀ st, Inv reg n H0 st → Inv reg n H0 (step reg st o) ∧ Frame st (step reg st o)) (hb : HT reg n H0 b) :
+    (h : ∀ st, Inv reg n H0 st → Inv reg n H0 (step reg st o) ∧ Restores st (step reg st o)) (hb : HT reg n H0 b) :
     HT reg n H0 (o :: b) := HT.append (a := [o]) (HT.single h) hb
 
 /-! ops that do not touch the scope stack -/
 
 theorem step_setLine (l : Nat) (st : AState) (h : Inv reg n H0 st) :
-    Inv reg n H0 (step reg st (.setLine l)) ∧ Frame st (step reg st (.setLine l)) :=
+    Inv reg n H0 (step reg st (.setLine l)) ∧ Restores st (step reg st (.setLine l)) :=
   ⟨h.of_eq rfl rfl rfl, ⟨rfl, rfl, Nat.le_refl _⟩⟩
 
 theorem step_load (name : Str) (st : AState) (h : Inv reg n H0 st) :
-    Inv reg n H0 (step reg st (.load name)) ∧ Frame st (step reg st (.load name)) := by
+    Inv reg n H0 (step reg st (.load name)) ∧ Restores st (step reg st (.load name)) := by
   simp only [step]
   split
   · obtain ⟨h1, f1⟩ := inv_deferLoad h name
@@ -382,63 +382,63 @@ theorem step_load (name : Str) (st : AState) (h : Inv reg n H0 st) :
   · exact inv_checkLoad h _ _ _
 
 theorem step_store (name : Str) (st : AState) (h : Inv reg n H0 st) :
-    Inv reg n H0 (step reg st (.store name)) ∧ Frame st (step reg st (.store name)) := inv_storeTop h name
+    Inv reg n H0 (step reg st (.store name)) ∧ Restores st (step reg st (.store name)) := inv_storeTop h name
 
 theorem step_enterFunc (st : AState) (h : Inv reg n H0 st) :
-    Inv reg n H0 (step reg st .enterFunc) ∧ Frame st (step reg st .enterFunc) :=
+    Inv reg n H0 (step reg st .enterFunc) ∧ Restores st (step reg st .enterFunc) :=
   ⟨h.of_eq rfl rfl rfl, ⟨rfl, rfl, Nat.le_refl _⟩⟩
 
 theorem step_exitFunc (st : AState) (h : Inv reg n H0 st) :
-    Inv reg n H0 (step reg st .exitFunc) ∧ Frame st (step reg st .exitFunc) := by
+    Inv reg n H0 (step reg st .exitFunc) ∧ Restores st (step reg st .exitFunc) := by
   simp only [step]
   split
-  · exact ⟨h, Frame.refl _⟩
+  · exact ⟨h, Restores.refl _⟩
   · exact ⟨h.of_eq rfl rfl rfl, ⟨rfl, rfl, Nat.le_refl _⟩⟩
 
 theorem step_incClass (st : AState) (h : Inv reg n H0 st) :
-    Inv reg n H0 (step reg st .incClass) ∧ Frame st (step reg st .incClass) :=
+    Inv reg n H0 (step reg st .incClass) ∧ Restores st (step reg st .incClass) :=
   ⟨h.of_eq rfl rfl rfl, ⟨rfl, rfl, Nat.le_refl _⟩⟩
 
 theorem step_decClass (st : AState) (h : Inv reg n H0 st) :
-    Inv reg n H0 (step reg st .decClass) ∧ Frame st (step reg st .decClass) :=
+    Inv reg n H0 (step reg st .decClass) ∧ Restores st (step reg st .decClass) :=
   ⟨h.of_eq rfl rfl rfl, ⟨rfl, rfl, Nat.le_refl _⟩⟩
 
 theorem step_removeMissing (name : Str) (st : AState) (h : Inv reg n H0 st) :
-    Inv reg n H0 (step reg st (.removeMissing name)) ∧ Frame st (step reg st (.removeMissing name)) :=
+    Inv reg n H0 (step reg st (.removeMissing name)) ∧ Restores st (step reg st (.removeMissing name)) :=
   ⟨h.of_eq rfl rfl rfl, ⟨rfl, rfl, Nat.le_refl _⟩⟩
 
 theorem step_dunderClass (st : AState) (h : Inv reg n H0 st) :
-    Inv reg n H0 (step reg st .dunderClass) ∧ Frame st (step reg st .dunderClass) := by
+    Inv reg n H0 (step reg st .dunderClass) ∧ Restores st (step reg st .dunderClass) := by
   simp only [step]
   split
   · exact inv_storeTop h _
-  · exact ⟨h, Frame.refl _⟩
+  · exact ⟨h, Restores.refl _⟩
 
 theorem step_storeIfNotInClass (name : Str) (st : AState) (h : Inv reg n H0 st) :
-    Inv reg n H0 (step reg st (.storeIfNotInClass name)) ∧ Frame st (step reg st (.storeIfNotInClass name)) := by
+    Inv reg n H0 (step reg st (.storeIfNotInClass name)) ∧ Restores st (step reg st (.storeIfNotInClass name)) := by
   simp only [step]
   split
   · exact inv_storeTop h _
-  · exact ⟨h, Frame.refl _⟩
+  · exact ⟨h, Restores.refl _⟩
 
 theorem step_classDelayed (name : Str) (st : AState) (h : Inv reg n H0 st) :
-    Inv reg n H0 (step reg st (.classDelayed name)) ∧ Frame st (step reg st (.classDelayed name)) := by
+    Inv reg n H0 (step reg st (.classDelayed name)) ∧ Restores st (step reg st (.classDelayed name)) := by
   simp only [step]
   split
   · refine ⟨?_, ⟨rfl, rfl, by simp [Heap.length_update]⟩⟩
     exact inv_update_top h _ (.inl rfl) _ (fun sc hsc => by simpa [Scope.set] using assocSet_values hsc) _ (.inl rfl)
-  · exact ⟨h, Frame.refl _⟩
+  · exact ⟨h, Restores.refl _⟩
 
 theorem step_delName (name : Str) (st : AState) (h : Inv reg n H0 st) :
-    Inv reg n H0 (step reg st (.delName name)) ∧ Frame st (step reg st (.delName name)) := by
+    Inv reg n H0 (step reg st (.delName name)) ∧ Restores st (step reg st (.delName name)) := by
   simp only [step]
   split
   · refine ⟨?_, ⟨rfl, rfl, by simp [Heap.length_update]⟩⟩
     exact inv_update_top h _ (.inr h.top_ge) _ (fun sc hsc => by simpa [Scope.del] using assocDel_values hsc) _ h.top_ge
-  · exact ⟨h, Frame.refl _⟩
+  · exact ⟨h, Restores.refl _⟩
 
 theorem inv_deferGlobal (name : Str) (st : AState) (h : Inv reg n H0 st) :
-    Inv reg n H0 (deferGlobal reg st name) ∧ Frame st (deferGlobal reg st name) := by
+    Inv reg n H0 (deferGlobal reg st name) ∧ Restores st (deferGlobal reg st name) := by
   have h1 : Inv reg n H0 (st.emit (symbolNeedsImport reg st.heap st.stack.ids name).2) :=
     h.emit (fun e he => (symbolNeedsImport_effects reg st.heap st.stack.ids name e he).ok n)
   unfold deferGlobal
@@ -448,19 +448,19 @@ theorem inv_deferGlobal (name : Str) (st : AState) (h : Inv reg n H0 st) :
   · exact ⟨h1, ⟨rfl, rfl, Nat.le_refl _⟩⟩
 
 theorem inv_foldl_deferGlobal (names : List Str) (st : AState) (h : Inv reg n H0 st) :
-    Inv reg n H0 (names.foldl (deferGlobal reg) st) ∧ Frame st (names.foldl (deferGlobal reg) st) := by
+    Inv reg n H0 (names.foldl (deferGlobal reg) st) ∧ Restores st (names.foldl (deferGlobal reg) st) := by
   induction names generalizing st with
-  | nil => exact ⟨h, Frame.refl _⟩
+  | nil => exact ⟨h, Restores.refl _⟩
   | cons a r ih =>
     obtain ⟨h1, f1⟩ := inv_deferGlobal a st h
     obtain ⟨h2, f2⟩ := ih _ h1
     exact ⟨h2, f1.trans f2⟩
 
 theorem step_allNames (names : List Str) (st : AState) (h : Inv reg n H0 st) :
-    Inv reg n H0 (step reg st (.allNames names)) ∧ Frame st (step reg st (.allNames names)) := by
+    Inv reg n H0 (step reg st (.allNames names)) ∧ Restores st (step reg st (.allNames names)) := by
   simp only [step]
   split
-  · exact ⟨h, Frame.refl _⟩
+  · exact ⟨h, Restores.refl _⟩
   · exact inv_foldl_deferGlobal names st h
 
 /-! ### scope brackets -/
@@ -562,7 +562,7 @@ theorem inv_push {st : AState} (h : Inv reg n H0 st) (ic nc uh : Bool) :
 /-- leaving a `_NewScopeCtx` -/
 theorem inv_pop {st st2 : AState} (h : Inv reg n H0 st) (h2 : Inv reg n H0 st2)
     (hsaved : st2.saved = st.stack :: st.saved) (hheap : st.heap.length ≤ st2.heap.length) :
-    Inv reg n H0 (step reg st2 .popScope) ∧ Frame st (step reg st2 .popScope) := by
+    Inv reg n H0 (step reg st2 .popScope) ∧ Restores st (step reg st2 .popScope) := by
   simp only [step, hsaved, AState.emit]
   refine ⟨?_, ⟨rfl, rfl, hheap⟩⟩
   constructor
